@@ -1,7 +1,7 @@
 """Stages shared by all property checks."""
 import os, time
 from . import build, leanb
-from .common import ROOT
+from .common import ROOT, REPO
 
 
 TRUSTED = ["Lean 4.33.0 kernel (lake build); thorough tier additionally leanchecker on the property module",
